@@ -114,14 +114,14 @@ def referenced(ev):
     return strict, loose
 
 
-async def _add_raw(rig, ev):
+async def _add_raw(rig, ev, token=None):
     """storage.add_event without settling in between (several of these run concurrently); result as Rig.add"""
     import json
 
     from nostr_relay.errors import StorageError, AuthenticationError
 
     try:
-        _, changed = await rig.storage.add_event(json.loads(json.dumps(ev)))
+        _, changed = await rig.storage.add_event(json.loads(json.dumps(ev)), auth_token=token)
         return (bool(changed), "" if changed else "duplicate")
     except (StorageError, AuthenticationError) as e:
         return (False, str(e))
@@ -136,12 +136,15 @@ class Deletion(Sub):
     rule = RULE
 
     def strategy(self, tier):
-        return st.tuples(st.sampled_from(["kv", "sql"]), st_history(10 if tier == "quick" else 18)).map(list)
+        # third element: NIP-42 authentication is enabled (default actions: open to anonymous) and everything arrives on
+        # an unauthenticated session - who is logged in does not matter for NIP-09, only who signed
+        return st.tuples(st.sampled_from(["kv", "sql"]), st_history(10 if tier == "quick" else 18),
+                         st.sampled_from([False, False, True])).map(list)
 
     def run_case(self, case):
-        return H.run(self._run, case[0], case[1])
+        return H.run(self._run, case[0], case[1], case[2] if len(case) > 2 else False)
 
-    async def _run(self, backend, history):
+    async def _run(self, backend, history, auth_on=False):
         import asyncio
 
         viol = []
@@ -149,7 +152,11 @@ class Deletion(Sub):
         labels = ["backend:" + backend]
         # concurrent submissions need real concurrency on SQL: a file database with several connections
         together = any(isinstance(x, list) and x[0] == "together" for x in history)
-        async with H.Rig(backend, validators=[], file_db=True if (backend == "sql" and together) else None) as rig:
+        cfg = {"authentication": {"enabled": True, "relay_urls": ["ws://relay.example"]}} if auth_on else {}
+        token = {} if auth_on else None
+        if auth_on:
+            labels.append("auth-enabled-anonymous-session")
+        async with H.Rig(backend, validators=[], config=cfg, file_db=True if (backend == "sql" and together) else None) as rig:
             seen_ids = set()
             deletions = []   # accepted kind-5 events so far
             for step, item in enumerate(history):
@@ -166,10 +173,10 @@ class Deletion(Sub):
                 group = item[1] if isinstance(item, list) else [item]
                 before = await rig.dump()
                 if len(group) == 1:
-                    results = [await rig.add(group[0])]
+                    results = [await rig.add(group[0], token=token)]
                 else:
                     labels.append("together:%d" % len(group))
-                    results = await asyncio.gather(*[_add_raw(rig, e) for e in group])
+                    results = await asyncio.gather(*[_add_raw(rig, e, token) for e in group])
                     rig.pump()
                     await rig.settle()
                 after = await rig.dump()
@@ -251,4 +258,70 @@ class Deletion(Sub):
         return Result(viol, nt, labels)
 
 
-SUBCHECKS = [Deletion()]
+class Backlog(Sub):
+    """LMDB: acknowledgements are sent before the writer thread applies anything - a backlog must not change the outcome"""
+
+    name = "backlog"
+    examples = {"quick": 600, "thorough": 4800}
+    shards = {"quick": 8, "thorough": 16}
+    rule = ("LMDB: a history of distinct events and deletions is applied twice - the writer run after every submission, and "
+            "with runs of 2..6 submissions queued behind each other before the writer runs - and the raw dumps must be equal "
+            "(the writer queue is first-in first-out); non-trivial = a queued run holds a deletion and, before it, an event "
+            "of the same author that it names")
+
+    def strategy(self, tier):
+        def distinct(h):
+            seen = set()
+            out = []
+            for x in h:
+                for e in (x[1] if isinstance(x, list) and x[0] == "together" else [x]):
+                    if isinstance(e, dict) and e["id"] not in seen:
+                        seen.add(e["id"])
+                        out.append(e)
+            return out
+        return st.tuples(st_history(10 if tier == "quick" else 18).map(distinct),
+                         st.lists(st.integers(1, 6), min_size=12, max_size=12)).map(list)
+
+    def run_case(self, case):
+        return H.run(self._run, case)
+
+    async def _run(self, case):
+        history, sizes = case
+        viol = []
+        nt = False
+
+        async def apply(groups):
+            async with H.Rig("kv", validators=[]) as rig:
+                for g in groups:
+                    for ev in g:
+                        await _add_raw(rig, ev)
+                    rig.pump()
+                    await rig.settle()
+                return await rig.dump()
+
+        groups = []
+        i = 0
+        for n in sizes:
+            if i >= len(history):
+                break
+            groups.append(history[i:i + n])
+            i += n
+        if i < len(history):
+            groups.append(history[i:])
+        for g in groups:
+            for j, d in enumerate(g):
+                if d["kind"] == 5 and any(x["id"] in referenced(d)[0] and x["pubkey"] == d["pubkey"] for x in g[:j]):
+                    nt = True
+        one_by_one = await apply([[e] for e in history])
+        queued = await apply(groups)
+        if one_by_one != queued:
+            only_seq = sorted(set(one_by_one) - set(queued))
+            only_q = sorted(set(queued) - set(one_by_one))
+            viol.append(V("kv-backlog-changes-outcome:%s" % ("deleted-event-survives" if only_q else "extra-removal"),
+                          "a deletion removes the referenced events of its author whether or not they were still queued",
+                          only_when_applied_one_by_one=only_seq, only_when_queued=only_q,
+                          groups=[[e["id"][:4] + ":k%d" % e["kind"] for e in g] for g in groups]))
+        return Result(viol, nt, ["groups:%d" % len(groups)])
+
+
+SUBCHECKS = [Deletion(), Backlog()]
